@@ -882,6 +882,14 @@ def whitespace_advance(run, ctx):
                     rec(a.get("guard"), anc)
                     rec(a["body"], anc)
                     anc.pop()
+            elif k == "If":
+                rec(n["cond"], anc)
+                anc.append({"k": "_Then", "cond": n["cond"]})
+                rec(n.get("then"), anc)
+                anc.pop()
+                anc.append({"k": "_Else", "cond": n["cond"]})
+                rec(n.get("else") or n.get("els"), anc)
+                anc.pop()
             else:
                 for key, v in n.items():
                     if key not in ("span", "ty"):
@@ -933,6 +941,9 @@ def whitespace_advance(run, ctx):
                         why = "%d-byte prefix tested" % N
                     if N >= 2 and "((%d + %s) < %s)" % (N - 1, IX, LEN) in g and examined:
                         why = "ix + %d < len tested" % (N - 1)
+                for t in inner:
+                    if t.get("k") == "_Then" and N >= 2 and examined and "((%d + %s) < %s)" % (N - 1, IX, LEN) in H.canon(t["cond"]):
+                        why = "ix + %d < len tested" % (N - 1)
             if why is None:
                 for a in arms:
                     pt = a["arm"]["pat"]
@@ -940,10 +951,21 @@ def whitespace_advance(run, ctx):
                     sc = H.canon(a["match"]["scrut"])
                     if len(xs) == 1 and xs[0] and R in ("(1 + %s)" % xs[0], xs[0]) and _re.match(r"\w+\[%s\.\.\]\.iter\(\)\.position\(" % _re.escape(IX), sc):
                         why = "offset of a byte found in bytes[ix..]"
+        if why is None and nd["k"] == "AssignOp" and "Add" in op:
+            # let-else form: `let Some(x) = bytes[ix..].iter().position(..) else { return .. }; ix += x + 1`
+            for blk in inner:
+                if blk.get("k") != "Block":
+                    continue
+                for st in blk.get("stmts", []):
+                    pt = st.get("pat") or {}
+                    if st.get("k") == "Let" and pt.get("k") == "TupleStructPat" and pt.get("variant") == "Some" and len(pt.get("pats", [])) == 1:
+                        x = pt["pats"][0].get("name")
+                        if x and R in ("(1 + %s)" % x, x) and _re.match(r"\w+\[%s\.\.\]\.iter\(\)\.position\(" % _re.escape(IX), H.canon(st.get("init") or {})):
+                            why = "offset of a byte found in bytes[ix..] (let-else)"
         if why is None:
             run.violation(fam, label, "advance", H.where(nd), "optional_whitespace advances its index by `%s` without having examined that many bytes; the loop guards `bytes[%s]` only with `%s == len`, so an index past the end panics (compile must not panic on any pattern)" % (H.canon(nd)[:100], IX, IX))
             continue
-        key = (id(anc[li]) if li >= 0 else 0, id(arms[-1]["arm"]) if arms else 0)
+        key = (id(anc[li]) if li >= 0 else 0, id(arms[-1]["arm"]) if arms else 0, tuple((t["k"], id(t["cond"])) for t in inner if t.get("k") in ("_Then", "_Else")))
         per_arm[key] = per_arm.get(key, 0) + 1
     for key, c in per_arm.items():
         if c > 1:
